@@ -51,136 +51,6 @@
 */
 /* VERIF-UNIT
 {
- "name": "gen64_test_range2",
- "props": ["C16"],
- "level": "U",
- "tier": "wip",
- "harness": "h_gen_range",
- "defines": ["RANGE_OP=0", "GEN64_RANGE"],
- "enforce": ["ext2fs_test_block_bitmap_range2"],
- "functions": ["lib/ext2fs/gen_bitmap64.c:ext2fs_test_block_bitmap_range2"],
- "assumes": ["backend = harness model backend (see gen64_common.h)",
-             "legacy 32-bit magic excluded (dispatch to gen_bitmap.c)",
-             "num >= 1 (callers pass a positive block count; the rounding of an empty range is not defined by the property)",
-             "0 <= cluster_bits <= 32, start <= end <= real_end, real_end < 2^62 >> cluster_bits (block numbers are at most 48 bits on disk)"],
- "backend": "kissat",
- "native": true
-}
-*/
-/* VERIF-UNIT
-{
- "name": "gen64_mark_range2",
- "props": ["C16"],
- "level": "U",
- "tier": "wip",
- "harness": "h_gen_range",
- "defines": ["RANGE_OP=1", "GEN64_RANGE"],
- "enforce": ["ext2fs_mark_block_bitmap_range2"],
- "functions": ["lib/ext2fs/gen_bitmap64.c:ext2fs_mark_block_bitmap_range2"],
- "assumes": ["backend = harness model backend (see gen64_common.h)",
-             "legacy 32-bit magic excluded (dispatch to gen_bitmap.c)",
-             "num >= 1 (callers pass a positive block count; the rounding of an empty range is not defined by the property)",
-             "0 <= cluster_bits <= 32, start <= end <= real_end, real_end < 2^62 >> cluster_bits (block numbers are at most 48 bits on disk)"],
- "backend": "kissat",
- "native": true
-}
-*/
-/* VERIF-UNIT
-{
- "name": "gen64_unmark_range2",
- "props": ["C16"],
- "level": "U",
- "tier": "wip",
- "harness": "h_gen_range",
- "defines": ["RANGE_OP=2", "GEN64_RANGE"],
- "enforce": ["ext2fs_unmark_block_bitmap_range2"],
- "functions": ["lib/ext2fs/gen_bitmap64.c:ext2fs_unmark_block_bitmap_range2"],
- "assumes": ["backend = harness model backend (see gen64_common.h)",
-             "legacy 32-bit magic excluded (dispatch to gen_bitmap.c)",
-             "num >= 1 (callers pass a positive block count; the rounding of an empty range is not defined by the property)",
-             "0 <= cluster_bits <= 32, start <= end <= real_end, real_end < 2^62 >> cluster_bits (block numbers are at most 48 bits on disk)"],
- "backend": "kissat",
- "native": true
-}
-*/
-/* VERIF-UNIT
-{
- "name": "gen64_ffz_backend",
- "props": ["C16"],
- "level": "U",
- "unwindset": {"ext2fs_find_first_zero_generic_bmap.0": 1, "ext2fs_find_first_zero_generic_bmap.1": 1},
- "unwind_reason": "the generic test_bmap loop (and the backward goto into the found: block) is unreachable when the backend provides find_first operations; the unwinding assertions prove exactly that",
- "tier": "wip",
- "harness": "h_gen_ff",
- "defines": ["FF_OP=0", "GEN64_FF_BACKEND"],
- "enforce": ["ext2fs_find_first_zero_generic_bmap"],
- "functions": ["lib/ext2fs/gen_bitmap64.c:ext2fs_find_first_zero_generic_bmap"],
- "assumes": ["backend = harness model backend providing find_first_zero/find_first_set: any answer consistent with set semantics at the ghost cluster, or an arbitrary error code",
-             "the fallback loop (backend without find_first operations) is the separate unit gen64_find_first_fallback",
-             "legacy 32-bit magic excluded (dispatch to gen_bitmap.c)",
-             "0 <= cluster_bits <= 32, start <= end <= real_end, real_end < 2^62 >> cluster_bits"],
- "backend": "kissat",
- "native": true
-}
-*/
-/* VERIF-UNIT
-{
- "name": "gen64_ffs_backend",
- "props": ["C16"],
- "level": "U",
- "unwindset": {"ext2fs_find_first_set_generic_bmap.0": 1, "ext2fs_find_first_set_generic_bmap.1": 1},
- "unwind_reason": "the generic test_bmap loop (and the backward goto into the found: block) is unreachable when the backend provides find_first operations; the unwinding assertions prove exactly that",
- "tier": "wip",
- "harness": "h_gen_ff",
- "defines": ["FF_OP=1", "GEN64_FF_BACKEND"],
- "enforce": ["ext2fs_find_first_set_generic_bmap"],
- "functions": ["lib/ext2fs/gen_bitmap64.c:ext2fs_find_first_set_generic_bmap"],
- "assumes": ["backend = harness model backend providing find_first_zero/find_first_set: any answer consistent with set semantics at the ghost cluster, or an arbitrary error code",
-             "the fallback loop (backend without find_first operations) is the separate unit gen64_find_first_fallback",
-             "legacy 32-bit magic excluded (dispatch to gen_bitmap.c)",
-             "0 <= cluster_bits <= 32, start <= end <= real_end, real_end < 2^62 >> cluster_bits"],
- "backend": "kissat",
- "native": true
-}
-*/
-/* VERIF-UNIT
-{
- "name": "gen64_ffz_fallback",
- "props": ["C16"],
- "level": "U",
- "tier": "wip",
- "harness": "h_gen_ff_fallback",
- "defines": ["FF_OP=0", "GEN64_FF_FALLBACK"],
- "enforce": ["ext2fs_find_first_zero_generic_bmap"],
- "loop_contracts": true,
- "functions": ["lib/ext2fs/gen_bitmap64.c:ext2fs_find_first_zero_generic_bmap"],
- "assumes": ["backend = harness model backend WITHOUT find_first operations (generic test_bmap loop, closed by an in-place loop contract)",
-             "legacy 32-bit magic excluded (dispatch to gen_bitmap.c)",
-             "0 <= cluster_bits <= 32, start <= end <= real_end, real_end < 2^62 >> cluster_bits"],
- "backend": "kissat",
- "native": true
-}
-*/
-/* VERIF-UNIT
-{
- "name": "gen64_ffs_fallback",
- "props": ["C16"],
- "level": "U",
- "tier": "wip",
- "harness": "h_gen_ff_fallback",
- "defines": ["FF_OP=1", "GEN64_FF_FALLBACK"],
- "enforce": ["ext2fs_find_first_set_generic_bmap"],
- "loop_contracts": true,
- "functions": ["lib/ext2fs/gen_bitmap64.c:ext2fs_find_first_set_generic_bmap"],
- "assumes": ["backend = harness model backend WITHOUT find_first operations (generic test_bmap loop, closed by an in-place loop contract)",
-             "legacy 32-bit magic excluded (dispatch to gen_bitmap.c)",
-             "0 <= cluster_bits <= 32, start <= end <= real_end, real_end < 2^62 >> cluster_bits"],
- "backend": "kissat",
- "native": true
-}
-*/
-/* VERIF-UNIT
-{
  "name": "gen64_passthrough",
  "props": ["C16"],
  "level": "U",
@@ -192,23 +62,6 @@
              "legacy 32-bit magic excluded (dispatch to gen_bitmap.c)"],
  "backend": "kissat",
  "native": true
-}
-*/
-/* VERIF-UNIT
-{
- "name": "gen64_compare",
- "props": ["C16"],
- "level": "U/iter",
- "tier": "wip",
- "harness": "h_gen_cmp",
- "enforce": ["ext2fs_compare_generic_bmap"],
- "loop_contracts": true,
- "functions": ["lib/ext2fs/gen_bitmap64.c:ext2fs_compare_generic_bmap"],
- "assumes": ["both bitmaps use the harness model backend (set semantics at one ghost cluster each)",
-             "legacy 32-bit magic excluded (dispatch to gen_bitmap.c)",
-             "0 <= cluster_bits <= 32, start <= end <= real_end, real_end < 2^62 >> cluster_bits"],
- "backend": "kissat",
- "native": false
 }
 */
 #include "gen64_common.h"
@@ -234,12 +87,6 @@ static int spec_single(ext2fs_generic_bitmap g, __u64 arg, int ret, int OPC, int
 		 G_CODE == (unsigned long long)(B64(g)->base_error_code + (ERRC)) && verif_g0 == (unsigned)verif_old_bit));
 }
 
-static int pre_a(ext2fs_generic_bitmap g, const struct ext2_bitmap_ops *ops)
-{
-	return g == 0 || (g == (ext2fs_generic_bitmap)&BMA && WF64(g, ops, &verif_g0));
-}
-#define PRE_A(g, ops) pre_a(g, ops)
-#define PRE_LOG (G_CALLS == 0 && G_WARN == 0 && verif_g0 == (unsigned)verif_old_bit && verif_g0 <= 1)
 
 int ext2fs_mark_generic_bmap(ext2fs_generic_bitmap gen_bitmap, __u64 arg)
 	REQUIRES(PRE_A(gen_bitmap, &MODEL_OPS) && PRE_LOG)
@@ -251,12 +98,10 @@ int ext2fs_unmark_generic_bmap(ext2fs_generic_bitmap gen_bitmap, __u64 arg)
 	ENSURES(spec_single(gen_bitmap, arg, RET, OP_UNMARK, EXT2FS_UNMARK_ERROR))
 	ASSIGNS(GHOSTS);
 
-#if !defined(GEN64_RANGE) && !defined(VERIF_UNIT_gen64_compare)
 int ext2fs_test_generic_bmap(ext2fs_generic_bitmap gen_bitmap, __u64 arg)
 	REQUIRES(PRE_A(gen_bitmap, &MODEL_OPS) && PRE_LOG)
 	ENSURES(spec_single(gen_bitmap, arg, RET, OP_TEST, EXT2FS_TEST_ERROR))
 	ASSIGNS(GHOSTS);
-#endif
 
 void h_gen_single(void)
 {
@@ -285,176 +130,14 @@ void h_gen_single(void)
 	REACH("end");
 }
 
-/* ------------------------------------------------------------------ block ranges
- * Property: the clusters that intersect the block range [block, block+num) are cf = cluster(block) ...
- * cl = cluster(block+num-1); the range is acceptable iff it does not wrap and cf >= start and cl <= end. */
-#define LASTB(block, num) ((block) + (num) - 1)
-#define RANGE_OK(g, block, num) (LASTB(block, num) >= (block) && CL(g, block) >= B64(g)->start && CL(g, LASTB(block, num)) <= B64(g)->end)
-#define NCL(g, block, num) (CL(g, LASTB(block, num)) - CL(g, block) + 1)
-#define K_IN_RANGE(g, block, num) (verif_k >= CL(g, block) && verif_k <= CL(g, LASTB(block, num)))
-
-static int spec_range(ext2fs_generic_bitmap g, __u64 block, unsigned int num, int OPC, errcode_t ERRCODE)
-{
-	return ( 
-	!VALID64(g) ? (G_CALLS == 0 && G_WARN == 0 && verif_g0 == (unsigned)verif_old_bit) : 
-	RANGE_OK(g, block, num) ? 
-		(G_CALLS == 1 && G_OP == (OPC) && G_ARG == CL(g, block) && G_NUM == NCL(g, block, num) && 
-		 g_bm == (const void *)(g) && G_WARN == 0 && 
-		 verif_g0 == (unsigned)((OPC) == OP_MARK_EXT ? (verif_old_bit || K_IN_RANGE(g, block, num)) : (verif_old_bit && !K_IN_RANGE(g, block, num)))) : 
-		(G_CALLS == 0 && G_WARN == 1 && G_CODE == (unsigned long long)(ERRCODE) && verif_g0 == (unsigned)verif_old_bit));
-}
-
-/* test: nonzero iff no member among the clusters cf..cl (pointwise: nonzero => k is not a member if in range;
- * exact when the range is the single cluster k); the backend is consulted exactly once for exactly cf..cl and its
- * answer is the result; unacceptable range: nonzero, backend untouched, error hook */
-static int spec_test_range(ext2fs_generic_bitmap g, __u64 block, unsigned int num, int ret)
-{
-	return ( 
-	!VALID64(g) ? ((ret) != 0 && G_CALLS == 0 && verif_g0 == (unsigned)verif_old_bit) : 
-	RANGE_OK(g, block, num) ? 
-		(G_CALLS == 1 && g_bm == (const void *)(g) && G_WARN == 0 && verif_g0 == (unsigned)verif_old_bit && G_ARG == CL(g, block) && 
-		 ((G_OP == OP_TEST && NCL(g, block, num) == 1) || 
-		  (G_OP == OP_TESTCLEAR && G_NUM == NCL(g, block, num) && ((ret) != 0) == (IN.be_ret != 0))) && 
-		 ((ret) == 0 || !(K_IN_RANGE(g, block, num) && verif_old_bit)) && 
-		 (!(NCL(g, block, num) == 1 && CL(g, block) == verif_k) || ((ret) != 0) == !verif_old_bit)) : 
-		((ret) != 0 && ((num) == 1 || (ret) == EINVAL) && G_CALLS == 0 && G_WARN == 1 && verif_g0 == (unsigned)verif_old_bit));
-}
-
-#ifdef GEN64_RANGE
-int ext2fs_test_block_bitmap_range2(ext2fs_block_bitmap gen_bmap, blk64_t block, unsigned int num)
-	REQUIRES(PRE_A(gen_bmap, &MODEL_OPS) && PRE_LOG && num >= 1)
-	ENSURES(spec_test_range(gen_bmap, block, num, RET))
-	ASSIGNS(GHOSTS);
-
-void ext2fs_mark_block_bitmap_range2(ext2fs_block_bitmap gen_bmap, blk64_t block, unsigned int num)
-	REQUIRES(PRE_A(gen_bmap, &MODEL_OPS) && PRE_LOG && num >= 1)
-	ENSURES(spec_range(gen_bmap, block, num, OP_MARK_EXT, EXT2_ET_BAD_BLOCK_MARK))
-	ASSIGNS(GHOSTS);
-
-void ext2fs_unmark_block_bitmap_range2(ext2fs_block_bitmap gen_bmap, blk64_t block, unsigned int num)
-	REQUIRES(PRE_A(gen_bmap, &MODEL_OPS) && PRE_LOG && num >= 1)
-	ENSURES(spec_range(gen_bmap, block, num, OP_UNMARK_EXT, EXT2_ET_BAD_BLOCK_UNMARK))
-	ASSIGNS(GHOSTS);
-#endif
-
-void h_gen_range(void)
-{
-	ext2fs_generic_bitmap g = build_a(&MODEL_OPS);
-#ifndef RANGE_OP
-#define RANGE_OP (IN.op % 3)
-#endif
-	ASSUME(IN.num >= 1);
-	if (RANGE_OP == 0) {
-		int r = ext2fs_test_block_bitmap_range2(g, IN.arg, IN.num);
-		CHECK(spec_test_range(g, IN.arg, IN.num, r),
-		      "test_range2: backend asked once for exactly the clusters intersecting [block, block+num); nonzero iff none is a member; bad range rejected");
-		if (g && IS64M(IN.magic) && G_OP == OP_TESTCLEAR && IN.cluster_bits > 0 && r == 0) REACH("test range bigalloc, member found");
-		if (g && IS64M(IN.magic) && G_OP == OP_TEST) REACH("test range, single block");
-		if (g && IS64M(IN.magic) && G_WARN == 1 && IN.num > 1) REACH("test range rejected");
-	} else if (RANGE_OP == 1) {
-		ext2fs_mark_block_bitmap_range2(g, IN.arg, IN.num);
-		CHECK(spec_range(g, IN.arg, IN.num, OP_MARK_EXT, EXT2_ET_BAD_BLOCK_MARK),
-		      "mark_range2: exactly the clusters intersecting [block, block+num) join the set; bad range: nothing changes, error hook");
-		if (g && IS64M(IN.magic) && G_CALLS == 1 && IN.cluster_bits > 1 && (IN.arg & 3) == 3 && G_NUM > 1) REACH("mark range, unaligned bigalloc");
-		if (g && IS64M(IN.magic) && G_WARN == 1) REACH("mark range rejected");
-	} else {
-		ext2fs_unmark_block_bitmap_range2(g, IN.arg, IN.num);
-		CHECK(spec_range(g, IN.arg, IN.num, OP_UNMARK_EXT, EXT2_ET_BAD_BLOCK_UNMARK),
-		      "unmark_range2: exactly the clusters intersecting [block, block+num) leave the set; bad range: nothing changes, error hook");
-		if (g && IS64M(IN.magic) && G_CALLS == 1) REACH("unmark range accepted");
-	}
-	REACH("end");
-}
-
-/* ------------------------------------------------------------------ find first zero / set
- * Property (set view, T = membership searched for: 0 for find_first_zero, 1 for find_first_set):
- *   a block b "has value T" iff membership(cluster(b)) == T.  The result is the least block in [start, end] with
- *   value T, ENOENT if there is none, EINVAL (and the error hook) if start > end or a cluster of the range lies
- *   outside [bitmap start, bitmap end].  Pointwise at cluster k:
- *     ret == 0      => start <= *out <= end, k == cluster(*out) => member(k) == T,
- *                      cluster(start) <= k < cluster(*out) => member(k) == !T,
- *                      *out is the first block >= start of its cluster
- *     ret == ENOENT => cluster(start) <= k <= cluster(end) => member(k) == !T  */
-#define FF_ARGS_OK(g, s_, e_) ((s_) <= (e_) && CL(g, s_) >= B64(g)->start && CL(g, e_) <= B64(g)->end)
-#define IMPL(a, b) (!(a) || (b))
-#define MAXU(a, b) ((a) >= (b) ? (a) : (b))
-static int spec_ff(ext2fs_generic_bitmap g, __u64 s_, __u64 e_, const __u64 *outp, __u64 oldout, errcode_t ret, int T, int OPC, int BACKEND)
-{
-	return ( 
-	!VALID64(g) ? ((ret) == EINVAL && G_CALLS == 0 && G_WARN == 0 && *(outp) == (oldout)) : 
-	!FF_ARGS_OK(g, s_, e_) ? 
-		((ret) == EINVAL && G_CALLS == 0 && G_WARN == 1 && *(outp) == (oldout) && 
-		 G_CODE == (unsigned long long)(B64(g)->base_error_code + EXT2FS_TEST_ERROR)) : 
-	(G_WARN == 0 && verif_g0 == (unsigned)verif_old_bit && 
-	 (!(BACKEND) || (G_CALLS == 1 && G_OP == (OPC) && G_ARG == CL(g, s_) && G_NUM == CL(g, e_) && (ret) == IN.be_ret)) && 
-	 ((BACKEND) || (ret) == 0 || (ret) == ENOENT) && 
-	 IMPL((ret) == 0, *(outp) >= (s_) && *(outp) <= (e_) && 
-		IMPL(CL(g, *(outp)) == verif_k, (verif_old_bit != 0) == (T)) && 
-		IMPL(verif_k >= CL(g, s_) && verif_k < CL(g, *(outp)), (verif_old_bit != 0) == !(T)) && 
-		*(outp) == MAXU(s_, CL(g, *(outp)) << B64(g)->cluster_bits)) && 
-	 IMPL((ret) == ENOENT, IMPL(verif_k >= CL(g, s_) && verif_k <= CL(g, e_), (verif_old_bit != 0) == !(T))) && 
-	 IMPL((ret) != 0, *(outp) == (oldout))));
-}
-
-unsigned long long verif_oldout;	/* ghost: *out on entry */
-static __u64 OUT;
-
-#if defined(GEN64_FF_BACKEND) || defined(GEN64_FF_FALLBACK)
-#ifdef GEN64_FF_BACKEND
-#define FF_OPS MODEL_OPS
-#define FF_BACKEND 1
-#else
-#define FF_OPS MODEL_OPS_NOFF
-#define FF_BACKEND 0
-#endif
-errcode_t ext2fs_find_first_zero_generic_bmap(ext2fs_generic_bitmap bitmap, __u64 start, __u64 end, __u64 *out)
-	REQUIRES(PRE_A(bitmap, &FF_OPS) && PRE_LOG && out == &OUT && verif_oldout == OUT)
-	ENSURES(spec_ff(bitmap, start, end, out, verif_oldout, RET, 0, OP_FFZ, FF_BACKEND))
-	ASSIGNS(GHOSTS, OUT);
-
-errcode_t ext2fs_find_first_set_generic_bmap(ext2fs_generic_bitmap bitmap, __u64 start, __u64 end, __u64 *out)
-	REQUIRES(PRE_A(bitmap, &FF_OPS) && PRE_LOG && out == &OUT && verif_oldout == OUT)
-	ENSURES(spec_ff(bitmap, start, end, out, verif_oldout, RET, 1, OP_FFS, FF_BACKEND))
-	ASSIGNS(GHOSTS, OUT);
-#else
-#define FF_OPS MODEL_OPS
-#define FF_BACKEND 1
-#endif
-
-static void ff_body(ext2fs_generic_bitmap g)
-{
-	errcode_t r;
-#if FF_OP == 0
-	r = ext2fs_find_first_zero_generic_bmap(g, IN.arg, IN.arg2, &OUT);
-	CHECK(spec_ff(g, IN.arg, IN.arg2, &OUT, verif_oldout, r, 0, OP_FFZ, FF_BACKEND),
-	      "find_first_zero: least block in [start,end] whose cluster is not a member, ENOENT if none, EINVAL on a bad range");
-#else
-	r = ext2fs_find_first_set_generic_bmap(g, IN.arg, IN.arg2, &OUT);
-	CHECK(spec_ff(g, IN.arg, IN.arg2, &OUT, verif_oldout, r, 1, OP_FFS, FF_BACKEND),
-	      "find_first_set: least block in [start,end] whose cluster is a member, ENOENT if none, EINVAL on a bad range");
-#endif
-	if (g && IS64M(IN.magic) && r == 0 && IN.cluster_bits > 0 && OUT == IN.arg && (IN.arg & 1)) REACH("result clamped to start");
-	if (g && IS64M(IN.magic) && r == 0 && IN.cluster_bits > 0 && OUT > IN.arg) REACH("result in a later cluster");
-	if (g && IS64M(IN.magic) && r == ENOENT) REACH("ENOENT");
-	if (g && IS64M(IN.magic) && r == EINVAL && G_WARN == 1) REACH("EINVAL");
-	if (!g) REACH("NULL handle");
-}
-static void ff_harness(void)
-{
-	ext2fs_generic_bitmap g = build_a(&FF_OPS);
-	OUT = IN.be_out ^ 0x5a5a;
-	verif_oldout = OUT;
-	SPLIT_CB(ff_body, g);
-	REACH("end");
-}
-void h_gen_ff(void) { ff_harness(); }
-void h_gen_ff_fallback(void) { ff_harness(); }
-
 /* ------------------------------------------------------------------ pass-through operations
  * get/set range and resize are handed to the backend unchanged (the callers work in cluster units already):
  * exactly one backend call with identical arguments, its result returned; an invalid handle gives EINVAL without a call.
  * fudge_end: end > real_end -> neq, nothing changes; otherwise the old end is reported and end is replaced;
  * membership never changes. */
+unsigned long long verif_oldout;	/* ghost: *oend on entry */
+static __u64 OUT;
+
 static int spec_pass(ext2fs_generic_bitmap g, __u64 a, __u64 b, const void *p, errcode_t ret, int OPC)
 {
 	return ( 
@@ -463,7 +146,6 @@ static int spec_pass(ext2fs_generic_bitmap g, __u64 a, __u64 b, const void *p, e
 	 g_bm == (const void *)(g) && (ret) == IN.be_ret));
 }
 
-#ifdef VERIF_UNIT_gen64_passthrough
 errcode_t ext2fs_set_generic_bmap_range(ext2fs_generic_bitmap gen_bmap, __u64 start, unsigned int num, void *in)
 	REQUIRES(PRE_A(gen_bmap, &MODEL_OPS) && PRE_LOG)
 	ENSURES(spec_pass(gen_bmap, start, num, in, RET, OP_SET_RANGE) && G_WARN == 0)
@@ -493,7 +175,6 @@ errcode_t ext2fs_fudge_generic_bmap_end(ext2fs_generic_bitmap gen_bitmap, errcod
 	ENSURES(spec_fudge(gen_bitmap, neq, end, oend, verif_oldout, RET))
 	ENSURES(gen_bitmap == 0 || (B64(gen_bitmap)->start == OLD(BMA.start) && B64(gen_bitmap)->real_end == OLD(BMA.real_end) && B64(gen_bitmap)->magic == OLD(BMA.magic)))
 	ASSIGNS(GHOSTS, OUT, BMA.end);
-#endif
 
 void h_gen_pass(void)
 {
@@ -514,7 +195,6 @@ void h_gen_pass(void)
 		if (g && IS64M(IN.magic)) REACH("resize");
 		if (!g) REACH("resize NULL");
 	} else {
-#ifdef VERIF_UNIT_gen64_passthrough
 		__u64 *oend = IN.null_out ? 0 : &OUT;
 		OUT = IN.be_out;
 		verif_oldout = OUT;
@@ -525,56 +205,7 @@ void h_gen_pass(void)
 		CHECK(BMA.start == IN.start && BMA.real_end == IN.real_end, "fudge_end changes only `end`");
 		if (g && IS64M(IN.magic) && r == 0 && oend) REACH("fudge ok");
 		if (g && IS64M(IN.magic) && r != 0) REACH("fudge beyond real_end");
-#endif
 	}
 	REACH("end");
 }
 
-/* ------------------------------------------------------------------ compare
- * Property: two bitmaps compare equal (0) only if they have the same range and the same members:
- * pointwise, ret == 0 => for the ghost cluster k in [start, end]: member_A(k) == member_B(k).
- * Different ranges -> neq; invalid handles / different kinds -> EINVAL; the result is 0 or neq otherwise;
- * comparing changes neither set. */
-#ifdef VERIF_UNIT_gen64_compare
-static int pre_cmp(ext2fs_generic_bitmap a, ext2fs_generic_bitmap b)
-{
-	return (a == 0 || (a == (ext2fs_generic_bitmap)&BMA && WF64(a, &MODEL_OPS, &verif_g0))) &&
-	       (b == 0 || (b == (ext2fs_generic_bitmap)&BMB && WF64(b, &MODEL_OPS, &verif_g1))) &&
-	       verif_g0 <= 1 && verif_g1 <= 1 && G_CALLS == 0 && G_WARN == 0;
-}
-static int spec_cmp(errcode_t neq, ext2fs_generic_bitmap a, ext2fs_generic_bitmap b, errcode_t ret,
-		    unsigned long long old0, unsigned long long old1)
-{
-	if (verif_g0 != old0 || verif_g1 != old1)
-		return 0;
-	if (!a || !b || B64(a)->magic != B64(b)->magic || !IS64M(B64(a)->magic))
-		return ret == EINVAL;
-	if (B64(a)->start != B64(b)->start || B64(a)->end != B64(b)->end)
-		return ret == neq;
-	return (ret == 0 || ret == neq) &&
-	       (ret != 0 || !(verif_k >= B64(a)->start && verif_k <= B64(a)->end) || verif_g0 == verif_g1);
-}
-unsigned long long verif_old0, verif_old1;
-errcode_t ext2fs_compare_generic_bmap(errcode_t neq, ext2fs_generic_bitmap gen_bm1, ext2fs_generic_bitmap gen_bm2)
-	REQUIRES(pre_cmp(gen_bm1, gen_bm2) && verif_old0 == verif_g0 && verif_old1 == verif_g1)
-	ENSURES(spec_cmp(neq, gen_bm1, gen_bm2, RET, verif_old0, verif_old1))
-	ASSIGNS(GHOSTS);
-#endif
-
-void h_gen_cmp(void)
-{
-#ifdef VERIF_UNIT_gen64_compare
-	ext2fs_generic_bitmap a = build_a(&MODEL_OPS);
-	ASSUME(!IS32M(IN.magic2));
-	ASSUME(IN.start2 <= IN.end2 && IN.end2 <= IN.real_end);
-	fill_bitmap(&BMB, IN.magic2, IN.start2, IN.end2, IN.real_end, &MODEL_OPS, &verif_g1);
-	ext2fs_generic_bitmap b = IN.null_out ? 0 : (ext2fs_generic_bitmap)&BMB;
-	verif_old0 = verif_g0; verif_old1 = verif_g1;
-	errcode_t r = ext2fs_compare_generic_bmap(IN.neq, a, b);
-	CHECK(spec_cmp(IN.neq, a, b, r, verif_old0, verif_old1),
-	      "compare: 0 only if same range and same membership at every cluster of [start, end]; neq / EINVAL otherwise; sets unchanged");
-	if (a && b && r == 0 && IN.neq != 0) REACH("equal");
-	if (a && b && IS64M(IN.magic) && r == IN.neq && IN.start == IN.start2 && IN.end == IN.end2 && IN.neq != 0) REACH("differ in content");
-#endif
-	REACH("end");
-}
